@@ -1,1 +1,647 @@
-fn main() {}
+//! C04 — variant payload slot joining is lossless and matches the spec
+//! (parts 1, 2 and 4 of the design: `abi::cast` for all 49 ordered pairs, the
+//! resulting `Bitcast` trees executed by the abstract machine over large sets of
+//! bit patterns, and the casts the generator really emits for variant shapes).
+use abi_interp::cmp::*;
+use abi_interp::corpus::*;
+use abi_interp::harness::*;
+use abi_interp::ir::*;
+use abi_interp::machine::*;
+use abi_interp::mem::*;
+use abi_interp::runs::*;
+use cabi_ref::{Abi, CoreTy, CoreVal, GenCfg, Shape, Val};
+use serde_json::json;
+use std::collections::{BTreeMap, BTreeSet};
+use vkit::{hash64, Args, Report, Rng};
+use wit_bindgen_core::abi::{self, AbiVariant, LiftLower, WasmType};
+use wit_bindgen_core::wit_parser::Type;
+
+const WT: [WasmType; 7] = [WasmType::I32, WasmType::I64, WasmType::F32, WasmType::F64, WasmType::Pointer, WasmType::PointerOrI64, WasmType::Length];
+
+/// The spec's `join`, refined with the pointer / length / pointer-or-i64 flat
+/// types (written from the rules, not copied from wit-parser):
+/// equal -> same; i32|f32 -> i32; a length absorbs 32-bit values but is absorbed
+/// by 64-bit ones; a pointer absorbs 32-bit values and lengths and becomes
+/// pointer-or-i64 when joined with 64-bit values; pointer-or-i64 absorbs
+/// everything; everything else is i64.
+fn join(a: WasmType, b: WasmType) -> WasmType {
+    use WasmType::*;
+    if a == b {
+        return a;
+    }
+    let is32 = |t| matches!(t, I32 | F32);
+    let is64 = |t| matches!(t, I64 | F64);
+    match (a, b) {
+        (PointerOrI64, _) | (_, PointerOrI64) => PointerOrI64,
+        (Pointer, x) | (x, Pointer) => {
+            if is64(x) {
+                PointerOrI64
+            } else {
+                Pointer
+            }
+        }
+        (Length, x) | (x, Length) => {
+            if is64(x) {
+                I64
+            } else {
+                Length
+            }
+        }
+        (x, y) if is32(x) && is32(y) => I32,
+        _ => I64,
+    }
+}
+
+#[derive(Clone, Copy, PartialEq, Eq, Debug, PartialOrd, Ord)]
+enum Dir {
+    /// payload type -> joined slot type (lowering)
+    Into,
+    /// joined slot type -> payload type (lifting)
+    From,
+    Same,
+}
+
+fn direction(from: WasmType, to: WasmType) -> Option<Dir> {
+    if from == to {
+        return Some(Dir::Same);
+    }
+    // (from, to) is producible iff `to` absorbs `from`
+    if join(from, to) == to {
+        Some(Dir::Into)
+    } else if join(from, to) == from {
+        Some(Dir::From)
+    } else {
+        None
+    }
+}
+
+fn wname(t: WasmType) -> &'static str {
+    match t {
+        WasmType::I32 => "I32",
+        WasmType::I64 => "I64",
+        WasmType::F32 => "F32",
+        WasmType::F64 => "F64",
+        WasmType::Pointer => "Pointer",
+        WasmType::PointerOrI64 => "PointerOrI64",
+        WasmType::Length => "Length",
+    }
+}
+
+fn is64(t: CoreTy) -> bool {
+    matches!(t, CoreTy::I64 | CoreTy::F64)
+}
+
+/// spec oracle for one slot conversion
+fn oracle(dir: Dir, v: CoreVal, want: CoreTy) -> CoreVal {
+    match dir {
+        Dir::Into | Dir::Same => Abi::coerce_into_slot(v, want),
+        Dir::From => Abi::coerce_from_slot(v, want),
+    }
+}
+
+/// A cast compiled for one pointer width: the primitive steps as (from, to) core types.
+#[derive(Clone, Debug, PartialEq, Eq, PartialOrd, Ord)]
+struct Compiled {
+    steps: Vec<(CoreTy, CoreTy)>,
+}
+
+fn compile(c: &Cast, width: usize, out: &mut Vec<(CoreTy, CoreTy)>) {
+    match c {
+        Cast::None => {}
+        Cast::Sequence(s) => {
+            compile(&s[0], width, out);
+            compile(&s[1], width, out);
+        }
+        p => {
+            let (f, t) = p.endpoints().unwrap();
+            out.push((core_of(f, width), core_of(t, width)));
+        }
+    }
+}
+
+impl Compiled {
+    fn new(c: &Cast, width: usize) -> Compiled {
+        let mut steps = vec![];
+        compile(c, width, &mut steps);
+        Compiled { steps }
+    }
+    /// same semantics as `machine::apply_cast` (checked against it on a sample)
+    #[inline]
+    fn run(&self, mut ty: CoreTy, mut bits: u64) -> Result<(CoreTy, u64), (CoreTy, CoreTy)> {
+        for (f, t) in &self.steps {
+            if ty != *f {
+                return Err((*f, ty));
+            }
+            if is64(*f) && !is64(*t) {
+                bits &= 0xffff_ffff;
+            }
+            ty = *t;
+        }
+        Ok((ty, bits))
+    }
+}
+
+const B16: [u16; 16] = [0, 1, 2, 0x7f, 0x80, 0xff, 0x100, 0x7fff, 0x8000, 0x8001, 0xff00, 0xfffe, 0xffff, 0x7f80, 0x7fc0, 0xff80];
+const Q16: [u16; 4] = [0, 0xffff, 0x8000, 0x7ff0];
+
+struct SweepJob {
+    label: String,
+    dir: Dir,
+    width: usize,
+    have: CoreTy,
+    want: CoreTy,
+    fwd: Compiled,
+    /// the reverse cast for round trips (only for Dir::Into)
+    back: Option<Compiled>,
+    replay: serde_json::Value,
+}
+
+struct SweepResult {
+    evaluations: u64,
+    failure: Option<(String, String)>,
+}
+
+fn sweep_one(job: &SweepJob, bits: u64) -> Result<(), (String, String)> {
+    let v = CoreVal::from_bits(job.have, bits);
+    let exp = oracle(job.dir, v, job.want);
+    match job.fwd.run(job.have, bits) {
+        Err((f, t)) => return Err(("bitcast-operand-type".into(), format!("a primitive cast expects {f:?} but is applied to {t:?} (source {:?} bits {bits:#x})", job.have))),
+        Ok((ty, out)) => {
+            if ty != exp.ty() || out != exp.bits() {
+                return Err((
+                    "wrong-conversion".into(),
+                    format!("source {:?} bits {bits:#x}: machine gives {ty:?} {out:#x}, the spec's coercion gives {:?} {:#x}", job.have, exp.ty(), exp.bits()),
+                ));
+            }
+            if let Some(back) = &job.back {
+                match back.run(ty, out) {
+                    Err((f, t)) => return Err(("roundtrip-operand-type".into(), format!("reverse cast expects {f:?} but gets {t:?}"))),
+                    Ok((bt, bb)) => {
+                        if bt != job.have || bb != bits {
+                            return Err(("roundtrip-not-bit-exact".into(), format!("source {:?} bits {bits:#x} -> slot {ty:?} {out:#x} -> back {bt:?} {bb:#x}", job.have)));
+                        }
+                    }
+                }
+            }
+        }
+    }
+    Ok(())
+}
+
+/// pattern families; `part`/`parts` split the exhaustive ranges across threads
+fn sweep(job: &SweepJob, tier: &str, part: usize, parts: usize, seed: u64) -> SweepResult {
+    let mut n = 0u64;
+    macro_rules! chk {
+        ($b:expr) => {{
+            n += 1;
+            if let Err(f) = sweep_one(job, $b) {
+                return SweepResult { evaluations: n, failure: Some(f) };
+            }
+        }};
+    }
+    let src64 = is64(job.have);
+    if tier == "miri" {
+        let mut rng = Rng::new(seed ^ hash64(job.label.as_bytes()));
+        if part == 0 {
+            for b in [0u64, 1, 0x7fff_ffff, 0x8000_0000, 0xffff_ffff, 0x7fc0_0001, u64::MAX, 1 << 63, 0xffff_ffff_0000_0000] {
+                chk!(if src64 { b } else { b & 0xffff_ffff });
+            }
+            for _ in 0..8 {
+                chk!(if src64 { rng.next() } else { rng.next() & 0xffff_ffff });
+            }
+        }
+        return SweepResult { evaluations: n, failure: None };
+    }
+    if !src64 {
+        if tier == "thorough" {
+            // exhaustive 2^32
+            let chunk = (1u64 << 32) / parts as u64;
+            let lo = chunk * part as u64;
+            let hi = if part + 1 == parts { 1u64 << 32 } else { lo + chunk };
+            for b in lo..hi {
+                chk!(b);
+            }
+        } else {
+            // boundary 16-bit values in one half x exhaustive other half
+            for (k, bh) in B16.iter().enumerate() {
+                if k % parts != part || (tier == "light" && k % 4 != 0) {
+                    continue;
+                }
+                for x in 0..=0xffffu64 {
+                    chk!(((*bh as u64) << 16) | x);
+                    chk!((x << 16) | *bh as u64);
+                }
+            }
+        }
+    } else {
+        // one 16-bit quarter exhaustive, the others from a small boundary set
+        let mut k = 0;
+        for pos in 0..4 {
+            for a in Q16 {
+                for b in Q16 {
+                    for c in Q16 {
+                        k += 1;
+                        if k % parts != part || (tier == "light" && k % 8 != 0) {
+                            continue;
+                        }
+                        let others = [a as u64, b as u64, c as u64];
+                        for x in 0..=0xffffu64 {
+                            let mut q = [0u64; 4];
+                            let mut oi = 0;
+                            for (i, slot) in q.iter_mut().enumerate() {
+                                if i == pos {
+                                    *slot = x;
+                                } else {
+                                    *slot = others[oi];
+                                    oi += 1;
+                                }
+                            }
+                            chk!(q[0] | (q[1] << 16) | (q[2] << 32) | (q[3] << 48));
+                        }
+                    }
+                }
+            }
+        }
+        // sampled 64-bit patterns
+        let samples: u64 = if tier == "thorough" { 1 << 26 } else { 1 << 18 };
+        let nt_real = parts;
+        let _ = nt_real;
+        let mut rng = Rng::new(seed ^ hash64(job.label.as_bytes()) ^ (part as u64) << 40);
+        for _ in 0..samples / parts as u64 {
+            chk!(rng.next());
+        }
+    }
+    SweepResult { evaluations: n, failure: None }
+}
+
+fn run_jobs(rep: &mut Report, jobs: &[SweepJob], tier: &str, seed: u64, prefix: &str) {
+    let nt = nthreads(tier);
+    for job in jobs {
+        // cross-check the compiled evaluator against the machine's apply_cast on a sample
+        let results = parallel(nt, |p| sweep(job, tier, p, nt, seed));
+        let mut total = 0;
+        let mut failure = None;
+        for r in results {
+            total += r.evaluations;
+            if failure.is_none() {
+                failure = r.failure;
+            }
+        }
+        rep.evals(total);
+        rep.count_n(&format!("patterns:{}", if is64(job.have) { "64-bit-source" } else { "32-bit-source" }), total);
+        rep.distinct(&format!("{prefix}:{}", job.label));
+        if let Some((class, detail)) = failure {
+            rep.violation(&format!("{prefix}:{}:{class}", job.label), &detail, job.replay.clone());
+        }
+    }
+}
+
+/// Part 1 + 2: `abi::cast` on all 49 ordered pairs.
+fn table_check(rep: &mut Report, tier: &str, seed: u64) {
+    // the refined join must agree with the reference join on concrete core types
+    for w in [4usize, 8] {
+        for a in WT {
+            for b in WT {
+                let j = join(a, b);
+                if core_of(j, w) != Abi::join(core_of(a, w), core_of(b, w)) {
+                    rep.inconclusive(&format!("harness join table disagrees with cabi-ref join for ({a:?},{b:?}) at width {w}"));
+                    return;
+                }
+            }
+        }
+    }
+    let mut jobs = vec![];
+    let mut casts: BTreeMap<(usize, usize), Cast> = BTreeMap::new();
+    for (i, from) in WT.iter().enumerate() {
+        for (j, to) in WT.iter().enumerate() {
+            rep.eval();
+            let dir = direction(*from, *to);
+            let (f, t) = (*from, *to);
+            let r = catch(move || abi::cast(f, t));
+            let label = format!("{}->{}", wname(*from), wname(*to));
+            match (dir, r) {
+                (None, Err((msg, loc))) => {
+                    rep.count("table:unreachable-pairs");
+                    if !msg.contains("unreachable") {
+                        rep.violation(&format!("cast-table:{label}:non-joinable-pair-panics-without-unreachable"), &format!("{msg} at {}", panic_site(&loc)), json!({"pair": label}));
+                    }
+                }
+                (None, Ok(b)) => {
+                    rep.violation(&format!("cast-table:{label}:non-joinable-pair-accepted"), &format!("cast() returns {b:?} for a pair the spec's join can never produce"), json!({"pair": label}));
+                }
+                (Some(_), Err((msg, loc))) => {
+                    rep.violation(&format!("cast-table:{label}:joinable-pair-rejected"), &format!("cast() panics for a pair that flattening can produce: {msg} at {}", panic_site(&loc)), json!({"pair": label}));
+                }
+                (Some(_), Ok(b)) => {
+                    rep.count("table:convertible-pairs");
+                    casts.insert((i, j), Cast::from_bitcast(&b));
+                }
+            }
+        }
+    }
+    for ((i, j), c) in &casts {
+        let (from, to) = (WT[*i], WT[*j]);
+        let dir = direction(from, to).unwrap();
+        for w in [4usize, 8] {
+            let back = if dir == Dir::Into { casts.get(&(*j, *i)).map(|b| Compiled::new(b, w)) } else { None };
+            let label = format!("{}->{}:w{w}", wname(from), wname(to));
+            // declared endpoints of the chosen Bitcast
+            if let Some((ef, et)) = c.endpoints() {
+                if core_of(ef, w) != core_of(from, w) || core_of(et, w) != core_of(to, w) {
+                    rep.violation(&format!("cast-table:{label}:bitcast-endpoints"), &format!("cast({from:?},{to:?}) = {c:?} which converts {ef:?} to {et:?}"), json!({"pair": label, "width": w}));
+                }
+            }
+            jobs.push(SweepJob {
+                label: label.clone(),
+                dir,
+                width: w,
+                have: core_of(from, w),
+                want: core_of(to, w),
+                fwd: Compiled::new(c, w),
+                back,
+                replay: json!({"mode": "cast-table", "pair": label, "width": w, "cast": format!("{c:?}")}),
+            });
+            // the compiled evaluator is the machine's apply_cast: spot check
+            let mut rng = Rng::new(seed ^ hash64(label.as_bytes()));
+            for _ in 0..(if tier == "miri" { 4 } else { 2000 }) {
+                let bits = if is64(core_of(from, w)) { rng.next() } else { rng.next() & 0xffff_ffff };
+                let a = apply_cast(c, CoreVal::from_bits(core_of(from, w), bits), w).map(|v| (v.ty(), v.bits())).map_err(|e| e.class);
+                let b = Compiled::new(c, w).run(core_of(from, w), bits).map_err(|_| "bitcast-operand-type".to_string());
+                if a != b {
+                    rep.inconclusive("harness: compiled cast evaluator disagrees with machine::apply_cast");
+                }
+            }
+        }
+    }
+    run_jobs(rep, &jobs, tier, seed, "cast-table");
+}
+
+struct CapHost {
+    got: Option<Vec<Val>>,
+}
+impl Host for CapHost {
+    fn call_interface(&mut self, _n: &str, args: Vec<Val>, _h: bool, _a: bool) -> Result<Option<Val>, String> {
+        self.got = Some(args);
+        Ok(None)
+    }
+}
+
+fn arm_casts(block: &Block, n: usize) -> Vec<Cast> {
+    for node in &block.nodes {
+        if let Inst::Bitcasts(c) = &node.inst {
+            return c.clone();
+        }
+    }
+    vec![Cast::None; n]
+}
+
+/// Part 2 (generator output) + 4: casts emitted for real variant shapes.
+fn shapes_check(rep: &mut Report, units: &[Unit], tier: &str, seed: u64, only: Option<&serde_json::Value>) {
+    let nt = nthreads(tier);
+    let ctxs: Vec<Ctx> = units.iter().map(|u| Ctx::new(&u.resolve)).collect();
+    let mut work = vec![];
+    for (ui, u) in units.iter().enumerate() {
+        let abi = Abi::new(&u.resolve, 4);
+        for (p, t) in u.value_types() {
+            if let Some(o) = only {
+                if o["path"].as_str() != Some(&p) {
+                    continue;
+                }
+            }
+            if matches!(abi.shape(&t), Shape::Variant(_, k) if k != cabi_ref::VariantKind::Enum) && abi.flatten(&t).len() <= 16 {
+                work.push((ui, p, t));
+            }
+        }
+    }
+    rep.extra.insert("variant_types".into(), json!(work.len()));
+    type JobKey = (String, u8, usize, String, String);
+    let parts = parallel(nt, |wi| {
+        let mut r = Report::new("");
+        let mut distinct_jobs: BTreeMap<JobKey, SweepJob> = BTreeMap::new();
+        let mut pairs: BTreeSet<String> = BTreeSet::new();
+        for (k, (ui, path, ty)) in work.iter().enumerate() {
+            if k % nt != wi {
+                continue;
+            }
+            let unit = &units[*ui];
+            let ctx = &ctxs[*ui];
+            let resolve = &unit.resolve;
+            let res = catch(std::panic::AssertUnwindSafe(|| {
+                let abi4 = Abi::new(resolve, 4);
+                let Shape::Variant(cases, _) = abi4.shape(ty) else { return };
+                r.distinct(&format!("shape:{}", abi4.shape_key(ty)));
+                let wit = json!({"unit": unit.label, "wit": unit.wit, "synthetic": unit.synthetic, "path": path});
+                let lf = match record_lower_flat(resolve, ty, CanonPolicy::Never) {
+                    Ok(p) => p,
+                    Err(e) => {
+                        r.violation(&format!("variant-shape:lower:{}", e.sig()), &format!("{} [type {}]", e.text(), shorten(&abi4.shape_key(ty), 200)), wit.clone());
+                        return;
+                    }
+                };
+                let probe = mk_func("lift-probe", &[*ty], None, false);
+                let ll = match record_call(resolve, AbiVariant::GuestExport, LiftLower::LiftArgsLowerResults, &probe, false, CanonPolicy::Never) {
+                    Ok(p) => p,
+                    Err(e) => {
+                        r.violation(&format!("variant-shape:lift:{}", e.sig()), &format!("{} [type {}]", e.text(), shorten(&abi4.shape_key(ty), 200)), wit.clone());
+                        return;
+                    }
+                };
+                let lower_node = lf.prog.body.nodes.iter().rev().find(|n| matches!(n.inst, Inst::VariantLower { .. }));
+                let lift_node = ll.body.nodes.iter().find(|n| matches!(n.inst, Inst::VariantLift { .. }));
+                let (Some(lower_node), Some(lift_node)) = (lower_node, lift_node) else {
+                    r.inconclusive("harness: variant instruction not found at the top level of the recorded program");
+                    return;
+                };
+                for (ci, case) in cases.iter().enumerate() {
+                    let Some(pty) = case else { continue };
+                    let n = abi4.flatten(pty).len();
+                    let lc = arm_casts(&lower_node.blocks[ci], n);
+                    let fc = arm_casts(&lift_node.blocks[ci], n);
+                    if lc.len() != n || fc.len() != n {
+                        r.violation("variant-shape:cast-count", &format!("case {ci}: {} lower casts / {} lift casts for {n} payload slots [type {}]", lc.len(), fc.len(), shorten(&abi4.shape_key(ty), 200)), wit.clone());
+                        continue;
+                    }
+                    for w in [4usize, 8] {
+                        let abi = Abi::new(resolve, w);
+                        let have = abi.flatten(pty);
+                        let want = &abi.flatten(ty)[1..];
+                        for i in 0..n {
+                            r.eval();
+                            for (dirn, c, (src, dst)) in [(Dir::Into, &lc[i], (have[i], want[i])), (Dir::From, &fc[i], (want[i], have[i]))] {
+                                let comp = Compiled::new(c, w);
+                                let (ef, et) = match (comp.steps.first(), comp.steps.last()) {
+                                    (Some(f), Some(l)) => (f.0, l.1),
+                                    _ => (src, src),
+                                };
+                                let dname = if dirn == Dir::Into { "lower" } else { "lift" };
+                                if let Some((a, b)) = c.endpoints() {
+                                    pairs.insert(format!("{dname}:{}->{}", wname(a), wname(b)));
+                                }
+                                if ef != src || et != dst {
+                                    r.violation(
+                                        &format!("variant-shape:{dname}:cast-endpoints:{src:?}->{dst:?}:w{w}"),
+                                        &format!("case {ci} slot {i}: payload slot {:?} joined slot {:?} at width {w}, but the emitted cast {c:?} converts {ef:?} to {et:?} [type {}]", have[i], want[i], shorten(&abi.shape_key(ty), 200)),
+                                        json!({"shape": wit, "case": ci, "slot": i, "width": w}),
+                                    );
+                                    continue;
+                                }
+                                let back = if dirn == Dir::Into { Some(Compiled::new(&fc[i], w)) } else { None };
+                                let key: JobKey = (format!("{c:?}"), dirn as u8, w, format!("{src:?}"), format!("{:?}", back.as_ref().map(|b| b.steps.clone())));
+                                distinct_jobs.entry(key).or_insert_with(|| SweepJob {
+                                    label: format!("{dname}:{src:?}->{dst:?}:w{w}:{}", shorten(&format!("{c:?}"), 60)),
+                                    dir: dirn,
+                                    width: w,
+                                    have: src,
+                                    want: dst,
+                                    fwd: comp,
+                                    back,
+                                    replay: json!({"shape": wit, "case": ci, "slot": i, "width": w, "mode": dname}),
+                                });
+                            }
+                        }
+                    }
+                }
+                // end-to-end on values: machine lower vs reference, machine lift of reference encoding
+                let mut rng = Rng::new(seed ^ hash64(format!("{}/{}", unit.label, path).as_bytes()));
+                let gcfg = GenCfg { max_list: 3, ..Default::default() };
+                let vals = abi4.gen_vals(&mut rng, ty, &gcfg, if tier == "thorough" { 12 } else { 3 });
+                for w in [4usize, 8] {
+                    let abi = Abi::new(resolve, w);
+                    for v in &vals {
+                        r.eval();
+                        r.count("end-to-end-values");
+                        let rp = json!({"unit": unit.label, "wit": unit.wit, "synthetic": unit.synthetic, "path": path, "width": w, "value": v.text()});
+                        let mut host = NoHost;
+                        let mut m = Machine::new(ctx, w, Mem::new(w), &mut host);
+                        m.set(lf.value, MV::Iface(v.clone()));
+                        let run = m.run(&lf.prog.body).and_then(|_| lf.results.iter().map(|o| m.get(*o)).collect::<Result<Vec<MV>, MErr>>());
+                        r.count_n("bitcasts_executed", m.ev.bitcasts);
+                        let kind = top_kind(&abi, ty);
+                        match run {
+                            Err(e) => r.violation(&format!("variant-value:lower:{}:{kind}:w{w}", e.class), &format!("{} [type {} value {}]", e.detail, shorten(&abi.shape_key(ty), 160), shorten(&v.text(), 120)), rp.clone()),
+                            Ok(flat) => {
+                                let flat: Vec<CoreVal> = flat.iter().filter_map(|f| if let MV::Core(c) = f { Some(*c) } else { None }).collect();
+                                let mut rmem = Mem::new(w);
+                                if let Ok(rf) = abi.lower_flat(&mut rmem, v, ty) {
+                                    if let Err(d) = cmp_flat(&abi, ty, v, &flat, &m.mem, &rf, &rmem) {
+                                        r.violation(&format!("variant-value:lower:{}:{kind}:w{w}", d.class), &format!("{} [type {} value {}]", d.detail, shorten(&abi.shape_key(ty), 160), shorten(&v.text(), 120)), rp.clone());
+                                    }
+                                    // lift the reference encoding (with garbage in ignorable bits)
+                                    let mut rflat = rf.clone();
+                                    if let Ok(slots) = slot_kinds(&abi, ty, v) {
+                                        mutate_flat(&slots, &mut rflat, &mut rng);
+                                    }
+                                    let mut h = CapHost { got: None };
+                                    let res = {
+                                        let mut m2 = Machine::new(ctx, w, rmem, &mut h);
+                                        m2.args = rflat.iter().map(|c| MV::Core(*c)).collect();
+                                        let res = m2.run(&ll.body);
+                                        r.count_n("bitcasts_executed", m2.ev.bitcasts);
+                                        res
+                                    };
+                                    match (res, h.got) {
+                                        (Err(e), _) => r.violation(&format!("variant-value:lift:{}:{kind}:w{w}", e.class), &format!("{} [type {} value {} flat {:?}]", e.detail, shorten(&abi.shape_key(ty), 160), shorten(&v.text(), 120), rflat), rp.clone()),
+                                        (Ok(()), Some(g)) if g.len() == 1 && g[0] == *v => {}
+                                        (Ok(()), g) => r.violation(&format!("variant-value:lift:value-differs:{kind}:w{w}"), &format!("lifted {:?} from {:?} [type {} value {}]", g.map(|g| g.iter().map(|x| shorten(&x.text(), 100)).collect::<Vec<_>>()), rflat, shorten(&abi.shape_key(ty), 160), shorten(&v.text(), 120)), rp.clone()),
+                                    }
+                                }
+                            }
+                        }
+                    }
+                }
+            }));
+            if let Err((msg, loc)) = res {
+                r.inconclusive(&format!("harness panicked at {}: {}", panic_site(&loc), shorten(&msg, 120)));
+            }
+        }
+        (r, distinct_jobs, pairs)
+    });
+    let mut all_jobs: BTreeMap<JobKey, SweepJob> = BTreeMap::new();
+    let mut pairs = BTreeSet::new();
+    for (r, j, p) in parts {
+        merge(rep, r);
+        for (k, v) in j {
+            all_jobs.entry(k).or_insert(v);
+        }
+        pairs.extend(p);
+    }
+    rep.extra.insert("emitted_cast_pairs".into(), json!(pairs.iter().collect::<Vec<_>>()));
+    rep.extra.insert("distinct_emitted_casts".into(), json!(all_jobs.len()));
+    let jobs: Vec<SweepJob> = all_jobs.into_values().collect();
+    // emitted casts repeat the table's casts; sweep them with the quick pattern set
+    run_jobs(rep, &jobs, match tier { "thorough" => "quick", "miri" => "miri", _ => "light" }, seed, "emitted-cast");
+    // every producible non-identity pair must have been emitted by some shape
+    if only.is_none() {
+        for from in WT {
+            for to in WT {
+                match direction(from, to) {
+                    Some(Dir::Into) => {
+                        for (d, a, b) in [("lower", from, to), ("lift", to, from)] {
+                            let k = format!("{d}:{}->{}", wname(a), wname(b));
+                            if !pairs.contains(&k) {
+                                rep.inconclusive(&format!("no enumerated variant shape made the generator emit the cast {k}"));
+                            }
+                        }
+                    }
+                    _ => {}
+                }
+            }
+        }
+    }
+}
+
+fn main() {
+    let args = Args::parse();
+    let tier = args.str("tier", "quick");
+    let seed = args.seed();
+    let mut rep = Report::new("evaluation = one (cast, source bit pattern) execution or one (variant shape, case, slot, width) check; distinct = cast pairs x widths, emitted cast trees, variant shapes");
+    rep.max_samples = 4;
+    rep.assume("spec coercions = cabi_ref::Abi::coerce_into_slot / coerce_from_slot (f32->i32 and f64->i64 reinterpret, i32->i64 zero-extends, i64->i32 wraps); Pointer/Length are i32 at width 4 and i64 at width 8, PointerOrI64 is i64");
+    rep.assume("64-bit source domains are sampled (structured quarters + random), 32-bit source domains are exhaustive only in the thorough tier");
+    let mut only = None;
+    let mut units = vec![];
+    if let Some(path) = args.get("replay") {
+        let Some(r) = load_replay(path) else {
+            rep.inconclusive("replay file unreadable");
+            rep.write(&args.out());
+            return;
+        };
+        if r.get("mode").and_then(|m| m.as_str()) == Some("cast-table") || r.get("pair").is_some() {
+            table_check(&mut rep, &tier, seed);
+            rep.write(&args.out());
+            return;
+        }
+        let shape = if r.get("shape").is_some() { r["shape"].clone() } else { r.clone() };
+        match unit_from_replay(&shape) {
+            Some(u) => units.push(u),
+            None => {
+                rep.inconclusive("replay unit cannot be rebuilt");
+                rep.write(&args.out());
+                return;
+            }
+        }
+        only = Some(shape);
+    } else {
+        table_check(&mut rep, &tier, seed);
+        if tier != "miri" {
+            units.push(joins_unit());
+            units.extend(boundary_units().into_iter().filter(|u| u.label.contains("variants")));
+        }
+        let n = match tier.as_str() {
+            "thorough" => 300,
+            "miri" => 0,
+            _ => 30,
+        };
+        let mut stats = (0, 0);
+        let mut rng = Rng::new(seed.wrapping_mul(0x9E37_79B9).wrapping_add(4));
+        units.extend(random_units(&mut rng, n, &mut stats));
+        rep.extra.insert("random_worlds".into(), json!(stats.0));
+    }
+    if tier == "miri" {
+        // keep the Miri shard small: the synthetic joins unit is large
+        units.truncate(0);
+        units.push(miri_unit());
+    }
+    shapes_check(&mut rep, &units, &tier, seed, only.as_ref());
+    rep.write(&args.out());
+}
